@@ -241,38 +241,86 @@ func c07RecursionGated(c *Check, a *Anchors) {
 	rt := a.RunTask
 	info := rt.Info()
 	var gate *ast.IfStmt
-	for _, s := range rt.Body.List {
-		ifs, ok := s.(*ast.IfStmt)
-		if !ok {
-			continue
-		}
-		hasAdd, hasMax := false, false
-		ast.Inspect(ifs.Cond, func(nd ast.Node) bool {
-			switch x := nd.(type) {
-			case *ast.CallExpr:
-				if fn, ok := callee(info, x).(*types.Func); ok && fn.Pkg() != nil && fn.Pkg().Path() == "sync/atomic" && strings.HasPrefix(fn.Name(), "Add") {
-					ast.Inspect(x, func(m ast.Node) bool {
-						if sel, ok := m.(*ast.SelectorExpr); ok && fieldSel(info, sel, PkgTask, "Executor", "taskCallCount") {
-							hasAdd = true
-						}
-						return true
-					})
-				}
-			case *ast.BinaryExpr:
-				if x.Op == token.GEQ || x.Op == token.GTR {
-					if id, ok := ast.Unparen(x.Y).(*ast.Ident); ok {
-						if cst, ok := info.Uses[id].(*types.Const); ok && cst.Name() == "MaximumTaskCall" {
-							hasMax = true
+	gateStmt := map[*ast.IfStmt]*ast.IfStmt{} // gate (possibly in a helper) -> the top-level statement of RunTask that applies it
+	scan := func(list []ast.Stmt) *ast.IfStmt {
+		var g *ast.IfStmt
+		for _, s := range list {
+			ifs, ok := s.(*ast.IfStmt)
+			if !ok {
+				continue
+			}
+			hasAdd, hasMax := false, false
+			ast.Inspect(ifs.Cond, func(nd ast.Node) bool {
+				switch x := nd.(type) {
+				case *ast.CallExpr:
+					if fn, ok := callee(info, x).(*types.Func); ok && fn.Pkg() != nil && fn.Pkg().Path() == "sync/atomic" && strings.HasPrefix(fn.Name(), "Add") {
+						ast.Inspect(x, func(m ast.Node) bool {
+							if sel, ok := m.(*ast.SelectorExpr); ok && fieldSel(info, sel, PkgTask, "Executor", "taskCallCount") {
+								hasAdd = true
+							}
+							return true
+						})
+					}
+				case *ast.BinaryExpr:
+					if x.Op == token.GEQ || x.Op == token.GTR {
+						if id, ok := ast.Unparen(x.Y).(*ast.Ident); ok {
+							if cst, ok := info.Uses[id].(*types.Const); ok && cst.Name() == "MaximumTaskCall" {
+								hasMax = true
+							}
 						}
 					}
 				}
+				return true
+			})
+			if hasAdd && hasMax {
+				g = ifs
 			}
-			return true
-		})
-		if hasAdd && hasMax {
-			gate = ifs
+		}
+		return g
+	}
+	gate = scan(rt.Body.List)
+	outer := gate
+	if gate == nil {
+		// the gate extracted into a helper of the package: `if err := e.countCall(t); err != nil { return err }` as a
+		// top-level statement of RunTask, where the helper's own top-level statement is the gate and it returns nil otherwise
+		for _, st := range rt.Body.List {
+			ifs, ok := st.(*ast.IfStmt)
+			if !ok || ifs.Init == nil {
+				continue
+			}
+			as, ok := ifs.Init.(*ast.AssignStmt)
+			if !ok || len(as.Rhs) != 1 || len(as.Lhs) != 1 {
+				continue
+			}
+			call, ok := ast.Unparen(as.Rhs[0]).(*ast.CallExpr)
+			if !ok {
+				continue
+			}
+			fn, ok := callee(info, call).(*types.Func)
+			if !ok {
+				continue
+			}
+			h := c.P.DeclOf(fn)
+			if h == nil || h.Pkg != rt.Pkg {
+				continue
+			}
+			be, ok := ast.Unparen(ifs.Cond).(*ast.BinaryExpr)
+			if !ok || be.Op != token.NEQ || varOf(info, be.X) != varOf(info, as.Lhs[0]) || !isNilLit(info, be.Y) {
+				continue
+			}
+			returnsIt := false
+			for _, r := range returnsOf(ifs.Body) {
+				if res := errResult(r); res != nil && varOf(info, res) == varOf(info, as.Lhs[0]) {
+					returnsIt = true
+				}
+			}
+			if hg := scan(h.Body.List); hg != nil && returnsIt {
+				gate, outer = hg, ifs
+				c.Fn(h)
+			}
 		}
 	}
+	gateStmt[gate] = outer
 	name := fnDisplay(rt)
 	if gate == nil {
 		c.Bad("recursion-gated", "gate@"+name, rt.Decl.Pos(), "RunTask has no top-level `atomic.Add(taskCallCount[...]) >= MaximumTaskCall` gate: cyclic task references recurse without bound")
@@ -315,7 +363,7 @@ func c07RecursionGated(c *Check, a *Anchors) {
 	}
 	conj(gate.Cond)
 	c.Decide(len(extra) == 0, "recursion-gated", "gate-unconditional@"+name, gate.Pos(), "the gate has no condition beside the counter test", "the call-count gate is additionally conditional on `"+strings.Join(extra, "`, `")+"`: a cycle made of tasks for which that condition is false recurses without bound instead of ending with error 204")
-	beforeDedup := a.DedupCall != nil && gate.End() < a.DedupCall.Pos()
+	beforeDedup := a.DedupCall != nil && outer.End() < a.DedupCall.Pos()
 	// the gate is a direct statement of RunTask's body (found by scanning rt.Body.List): every path that reaches a later statement passed it
 	c.Decide(found && beforeDedup, "recursion-gated", "gate@"+name, gate.Pos(), "top-level gate before the dedup call returning *TaskCalledTooManyTimesError",
 		fmt.Sprintf("the call-count gate is not effective (returns *TaskCalledTooManyTimesError: %v, precedes the dedup call: %v)", found, beforeDedup))
